@@ -32,3 +32,42 @@ Theorem C01_values_are_the_given_ones :
   vals_of (rexpr Q rq is_alpha b T common e) = expr_values (fun q => vals_of (rq q)) e.
 Proof. exact rendered_values_are_the_given_ones. Qed.
 Print Assumptions C01_values_are_the_given_ones.
+
+(* The same for EVERY expression tree, custom templates included: a template binds the values of the
+   arguments its placeholders designate (template_values: the template loop of C11 run over the
+   bare value lists), every other node as above. *)
+Require Import SQV.Model.Stmt SQV.Model.RenderStmt SQV.Spec.StmtValues SQV.Proofs.StmtValuesProofs.
+Theorem C01_expression_values_general :
+  forall Q (rq : Q -> script) is_alpha b T (e : expr Q) common,
+  vals_of (rexpr Q rq is_alpha b T common e)
+  = expr_values_t (template_values is_alpha b) (fun q => vals_of (rq q)) e.
+Proof. exact rendered_values_general. Qed.
+Print Assumptions C01_expression_values_general.
+
+(* Whole statements.  For EVERY query statement (SELECT / INSERT / UPDATE / DELETE / WITH, nested to
+   any depth), every backend and every parenthesis table: the values the rendering pushes are the
+   statement's values in the dialect's SQL reading order (Spec/StmtValues.v query_values, written
+   without reference to text): each clause contributes the values of its expressions and its
+   explicit values (LIMIT, OFFSET, VALUES rows, frame bounds), a nested statement contributes its
+   own values where it is written, and nothing else contributes.  With C01_push_param_invariant the
+   collection returned by build() is exactly this list. *)
+Theorem C01_statement_values_are_the_given_ones :
+  forall is_alpha b T fuel q,
+  vals_of (rquery is_alpha b T fuel q) = query_values is_alpha b fuel q.
+Proof. exact statement_values_are_the_given_ones. Qed.
+Print Assumptions C01_statement_values_are_the_given_ones.
+
+(* not vacuous, and the dialect differences are real: SELECT a FROM t WHERE a = 1 ORDER BY a + 2 NULLS LAST
+   LIMIT 3 OFFSET 4 binds 1,2,3,4 on Postgres / SQLite and 1,2,2,3,4 on MySQL (the emulated sort key) *)
+Definition c01_iv (z : Z) : value := V TInt (Some (PInt z)).
+Definition c01_uv (z : Z) : value := V TBigUnsigned (Some (PInt z)).
+Definition c01_sample : query :=
+  QSelect (Select None [SelExpr (EColumn (CCol [97])) None None] [TPlain (TRTable [116])] []
+    (HCond (Cond false false [MExpr (EBinary (EColumn (CCol [97])) BEqual (EValue (c01_iv 1)))])) [] HEmpty []
+    [OrderExpr (EBinary (EColumn (CCol [97])) BAdd (EValue (c01_iv 2))) OAsc (Some NLast)]
+    (Some (c01_uv 3)) (Some (c01_uv 4)) None None None None []).
+Example C01_statement_values_sample :
+  query_values (fun _ => false) Postgres 1 c01_sample = [c01_iv 1; c01_iv 2; c01_uv 3; c01_uv 4] /\
+  query_values (fun _ => false) SQLite 1 c01_sample = [c01_iv 1; c01_iv 2; c01_uv 3; c01_uv 4] /\
+  query_values (fun _ => false) MySQL 1 c01_sample = [c01_iv 1; c01_iv 2; c01_iv 2; c01_uv 3; c01_uv 4].
+Proof. repeat apply conj; reflexivity. Qed.
